@@ -252,7 +252,7 @@ type Obligation struct {
 	Desc     string   // human readable: source text of the clause
 	Inputs   []string // names of SMT constants worth reporting from a model
 	Props    []string
-	ReplayFn string // qualified function for replay, if replayable
+	replaySpec *ReplaySpec
 }
 
 type Script struct {
